@@ -533,7 +533,7 @@ func (e *Effects) analyse(fn *ssa.Function) bool {
 	// returns
 	ei := ErrorResultIndex(fn.Signature)
 	for _, r := range ReturnsOf(fn) {
-		isErr := ei >= 0 && ei < len(r.Results) && e.m.ProvablyNonNilError(RetVal(r, ei), r.Block())
+		isErr := ei >= 0 && ei < len(r.Results) && e.m.RetNonNil(r, ei)
 		for i := range r.Results {
 			if i >= len(sum.Ret) {
 				continue
